@@ -384,11 +384,25 @@ func c16RefusedHost(s *sut.SUT, c *ev.Check) {
 					cases = append(cases, cse{n, k, st})
 				}
 			}
+			// transient faults (status < 0): the first authenticated download of host k breaks off (body cut half
+			// way, reset before the headers, one 503), a repeated request would be served. Each host's log is
+			// still downloaded at most once.
+			// (a reset BEFORE any response byte is not among them: net/http itself re-sends an idempotent request
+			// whose reused keep-alive connection turned out dead - the tool still performs one download)
+			for _, st := range []int{-1, -3} {
+				if (n+k+st)%2 == 0 || thorough(c) || k == n-1 {
+					cases = append(cases, cse{n, k, st})
+				}
+			}
 		}
 	}
 	parallelDo(len(cases), func(ci int) {
 		cs := cases[ci]
-		cfg, _, raws, names := c17Build(c.Seed+16, ci*4, c17Case{cs.n, cs.k, fmt.Sprintf("status-%d", cs.status)})
+		faultName := fmt.Sprintf("status-%d", cs.status)
+		if cs.status < 0 {
+			faultName = []string{"transient-cut", "transient-reset", "transient-503"}[-cs.status-1]
+		}
+		cfg, _, raws, names := c17Build(c.Seed+16, ci*4, c17Case{cs.n, cs.k, faultName})
 		srv, err := atlasfake.New(cfg)
 		if err != nil {
 			c.Inconclusive("fake endpoint: " + err.Error())
@@ -407,12 +421,35 @@ func c16RefusedHost(s *sut.SUT, c *ev.Check) {
 			return
 		}
 		label := fmt.Sprintf("%d hosts, download of host %d answered with HTTP %d", cs.n, cs.k, cs.status)
+		if cs.status < 0 {
+			label = fmt.Sprintf("%d hosts, first download of host %d fails (%s), a repeated one would succeed", cs.n, cs.k, faultName)
+			c.Count("transient_fault_runs", 1)
+		}
 		c.Count("refused_host_runs", 1)
 		c.Eval("refused|" + label)
 		rp := map[string]any{"kind": "atlas", "configuration": label, "exit": r.Exit, "stderr": short(r.Stderr, 300), "requests": logURLs(srv.Log())}
 		if len(srv.Log()) == 0 {
 			c.Violation("no-request-recorded", label+": the CLI never reached the fake endpoint", rp)
 			return
+		}
+		// exactly one download per host entry: never a second authenticated request for one host's log
+		// (a host named twice in the connection string has two entries)
+		entries, authed := map[string]int{}, map[string]int{}
+		for _, nm := range names {
+			entries[nm]++
+		}
+		for _, rq := range srv.Log() {
+			if strings.HasSuffix(rq.Path, "/logs/mongodb.gz") && strings.HasPrefix(rq.Authorization, "Digest ") {
+				authed[rq.Path]++
+			}
+		}
+		for pth, nreq := range authed {
+			h := strings.TrimSuffix(pth, "/logs/mongodb.gz")
+			host := h[strings.LastIndex(h, "/")+1:]
+			if nreq > entries[host] {
+				c.Violation("host-downloaded-again|refused-host", fmt.Sprintf("%s: %d authenticated downloads of %s for %d entr(y/ies) of that host in the connection string (exit %d)", label, nreq, pth, entries[host], r.Exit), rp)
+				return
+			}
 		}
 		complete := 0
 		for i := range names {
